@@ -179,3 +179,14 @@ check('C08', 'other',
       "fixed point); A-models (Psat, Tsat, gamma, phi, pcf uninterpreted positive, permutation-equivariant); A-real. Known findings F-C08-K1 (Dortmund dew point on mixtures with "
       "a miscibility gap) and, thorough tier, F-C08-K2a-c printed as KNOWN-FINDING. 3 defects repaired.",
       "symbolic execution of the real solver set-up/post-processing under root-finder contracts with z3 discharge + bounded run-time contracts on the real solvers", "DESIGN.md 4/C08")
+check('C04', 'other',
+      "Proved (mode S, all real values per enumerated structure): the closed-form and residual Rachford-Rice algebra (compute_phase_fraction_2N returns a root; the objective is "
+      "the RR residual with forced-phase fractions), that the fixed-point map poses K = pcf*Psat*gamma/(phi*P) so its fixed points are iso-fugacity states, T' = T_spec and "
+      "P' = P_spec on every returning path of all eleven specification pairs (solvers havoc'ed), the bubble/dew phase-boundary rule of the T,P flash, exact reproduction of H/S "
+      "by set_PH/set_PS (A-root, real mixing rule) and (T,P) scaling (relational, two runs). The decisive numerical clauses (V-spec resolution, iso-fugacity at the result, "
+      "H/S residuals of the real solvers, agreement with an independent Raoult/Rachford-Rice solve, scaling for V/H specifications) are BOUNDED run-time contracts on "
+      "deterministic grids (530 inputs quick, 4596 thorough) and are not counted as proved.",
+      "Level 'other' because the decisive clauses are bounded. A-real, A-bubble/dew, A-solve_v (contract from C03), A-models/A-root, A-linear-S for the PS correction, "
+      "A-deterministic stubs for the relational scaling. Bounded tolerances: H/S 1e-6, V 2e-6, T 1e-7 K, P 1 Pa, fugacity 1e-5. Known finding F-C04-5 (PS flash on benzene "
+      "mixtures: quantised dependency data) printed as KNOWN-FINDING. 4 defects repaired.",
+      "symbolic execution of the real flash bookkeeping and Rachford-Rice algebra with z3 discharge + bounded run-time contracts on the real solvers", "DESIGN.md 4/C04")
